@@ -209,57 +209,8 @@ func checkC17(w *World, r *Report) {
 
 	r.Rule("R17.7", "a value found for an empty leaf is reported against the leaf: (*empty).Validate strips only the value token from the path whenever the path holds more than the value (len(path) > 1), also for a leaf at module top level", 1)
 	r.guard("R17.7", func() {
-		sp := w.Pkg("schema")
-		fd, _ := w.FuncDecl(w.Method("schema", "empty", "Validate"))
-		pathObj := paramObj(sp, fd, 1)
-		var cond ast.Expr
-		ast.Inspect(fd.Body, func(n ast.Node) bool {
-			is, ok := n.(*ast.IfStmt)
-			if !ok {
-				return true
-			}
-			for _, ret := range returnsIn(is.Body) {
-				if len(ret.Results) == 1 {
-					if ce, ok := ret.Results[0].(*ast.CallExpr); ok && len(ce.Args) == 2 {
-						if _, isSlice := ast.Unparen(ce.Args[1]).(*ast.SliceExpr); isSlice {
-							mentions := false
-							ast.Inspect(is.Cond, func(y ast.Node) bool {
-								if id, ok := y.(*ast.Ident); ok && sp.TypesInfo.Uses[id] == pathObj {
-									mentions = true
-								}
-								return true
-							})
-							if mentions {
-								cond = is.Cond
-							}
-						}
-					}
-				}
-			}
-			return true
-		})
-		if cond == nil {
-			panic(undecided{"(*empty).Validate: guard of the path-carrying error"})
-		}
-		ok, bad := true, ""
-		func() {
-			defer func() {
-				if x := recover(); x != nil {
-					if u, isU := x.(undecided); isU {
-						ok, bad = false, u.why
-						return
-					}
-					panic(x)
-				}
-			}()
-			for _, k := range []int64{2, 3, 6} {
-				env := &guardEnv{p: sp, opaque: map[string]constant.Value{"len(" + pathObj.Name() + ")": constant.MakeInt64(k)}}
-				if !env.cond(cond) {
-					ok, bad = false, fmt.Sprintf("a path of %d tokens gets an error without location", k)
-				}
-			}
-		}()
-		r.Check(ok, "R17.7", "(*empty).Validate locates its error", fd.Pos(), "path[:len(path)-1] whenever len(path) > 1", "the error is located only when `"+types.ExprString(cond)+"` ("+bad+"): a value after a top-level empty leaf is reported with an empty path")
+		_, located, pos := emptyValidateTable(w)
+		r.Check(located == "", "R17.7", "(*empty).Validate locates its error", pos, "path[:len(path)-1] whenever len(path) > 1", "the error is not located exactly when the path holds more than the value ("+located+"): a value after a top-level empty leaf is reported with an empty path")
 	})
 
 	r.Rule("R17.4", "the error for a rejected path encodes the walked elements unambiguously: every error constructor that takes a path renders it with pathutil.Pathstr (percent-encoding), never by joining the raw tokens", 8)
@@ -317,135 +268,155 @@ func checkC17(w *World, r *Report) {
 }
 
 func c17Arms(w *World, r *Report) {
-	p := w.Pkg("schema")
-	validateI := w.interfaceMethod("schema", "Node", "Validate")
 	for _, k := range []string{"tree", "container", "list", "listEntry", "choice", "ycase", "leaf", "leafList"} {
 		m := w.TryMethod("schema", k, "Validate")
 		if m == nil || recvNamed(m) != k {
 			continue
 		}
-		fd, _ := w.FuncDecl(m)
-		pParam := paramObj(p, fd, 2)
+		f := w.SSAFunc(m)
 		c := k + ".Validate"
-		if len(fd.Body.List) < 2 {
-			r.Fail("R17.2", c, fd.Pos(), "shape not recognised")
+		if f == nil || len(f.Params) != 4 || len(ssaLoops(f)) > 0 {
+			r.Fail("R17.2", c, m.Pos(), "shape not recognised")
 			continue
 		}
-		// 1. empty-path arm first
-		first, isIf := fd.Body.List[0].(*ast.IfStmt)
-		emptyOK := false
-		cond := ""
-		if isIf {
-			if be, ok := ast.Unparen(first.Cond).(*ast.BinaryExpr); ok && be.Op == token.EQL {
-				if ce, ok := ast.Unparen(be.X).(*ast.CallExpr); ok && len(ce.Args) == 1 && objOfIdent(p, ce.Args[0]) == pParam {
-					if v, ok := ConstInt(p, be.Y); ok && v == 0 {
-						emptyOK = true
+		sym := NewSym(w)
+		ctxP, pP := f.Params[1], f.Params[3]
+		lenOf := func(a *pcAtom) (ssa.Value, bool) {
+			bo, ok := a.v.(*ssa.BinOp)
+			if !ok || a.subj == "" {
+				return nil, false
+			}
+			for _, side := range []ssa.Value{bo.X, bo.Y} {
+				if arg, ok := isLenCall(side); ok {
+					return arg, true
+				}
+			}
+			return nil, false
+		}
+		isRest := func(v ssa.Value) bool { // p[1:]
+			sl, ok := v.(*ssa.Slice)
+			if !ok || sl.X != ssa.Value(pP) || sl.High != nil {
+				return false
+			}
+			one, ok := intConstOf(sl.Low)
+			return ok && one == 1
+		}
+		classify := func(a *pcAtom) string {
+			if arg, ok := lenOf(a); ok && a.set.equal(isetOf(0)) {
+				if arg == ssa.Value(pP) {
+					return "empty"
+				}
+				if isRest(arg) {
+					return "restempty"
+				}
+			}
+			if call, ok := a.v.(*ssa.Call); ok {
+				if call.Call.IsInvoke() && call.Call.Method.Name() == "AllowIncompletePaths" && call.Call.Value == ssa.Value(ctxP) {
+					return "inc"
+				}
+				if g := call.Call.StaticCallee(); g != nil && g.Name() == "Presence" {
+					return "presence"
+				}
+			}
+			// Presence() read through: the container's presence flag
+			if ld, ok := a.v.(*ssa.UnOp); ok && ld.Op == token.MUL {
+				if fa, ok := ld.X.(*ssa.FieldAddr); ok {
+					st := fa.X.Type().Underlying().(*types.Pointer).Elem().Underlying().(*types.Struct)
+					if st.Field(fa.Field).Name() == "presence" {
+						return "presence"
 					}
 				}
 			}
-		}
-		if !emptyOK {
-			r.Fail("R17.2", c, fd.Pos(), "the method does not start with the empty-path arm")
-			continue
-		}
-		// what guards `return nil` inside the empty arm
-		var guards []string
-		unguardedNil := false
-		var walk func(list []ast.Stmt, under []string)
-		walk = func(list []ast.Stmt, under []string) {
-			for _, s := range list {
-				switch x := s.(type) {
-				case *ast.ReturnStmt:
-					if isNilIdent(p, x.Results[0]) {
-						if len(under) == 0 {
-							unguardedNil = true
-						}
-						guards = append(guards, strings.Join(under, "&"))
-					}
-				case *ast.IfStmt:
-					g := condWords(p, x)
-					walk(x.Body.List, append(append([]string{}, under...), g))
-					if x.Else != nil {
-						switch e := x.Else.(type) {
-						case *ast.BlockStmt:
-							walk(e.List, append(append([]string{}, under...), "else"))
-						case *ast.IfStmt:
-							walk([]ast.Stmt{e}, under)
-						}
+			if ex, ok := a.v.(*ssa.Extract); ok && ex.Index == 1 {
+				if ta, ok := ex.Tuple.(*ssa.TypeAssert); ok {
+					if n, ok := ta.AssertedType.(*types.Named); ok && n.Obj().Name() == "Empty" {
+						return "etype"
 					}
 				}
 			}
+			return ""
 		}
-		walk(first.Body.List, nil)
-		cond = strings.Join(guards, " | ")
-		wantEmpty := map[string]string{
-			"tree": "", "opdCommand": "", "opdArgument": "*", "opdOption": "*",
-			"container": "Presence|AllowIncompletePaths", "list": "AllowIncompletePaths", "listEntry": "AllowIncompletePaths",
-			"leafList": "AllowIncompletePaths", "leaf": "Empty | AllowIncompletePaths", "choice": "-", "ycase": "-",
-		}[k]
-		switch wantEmpty {
-		case "*":
-			// vendor kinds: not constrained by the property
-		case "":
-			r.Check(unguardedNil, "R17.2", c+" empty path", first.Pos(), "accepts the empty remainder", "kind must accept an empty remaining path")
-		case "-":
-			r.Check(len(guards) == 0, "R17.2", c+" empty path", first.Pos(), "never accepts an empty remainder", "a path may end on a choice/case name")
-		default:
-			r.Check(!unguardedNil && cond == wantEmpty, "R17.2", c+" empty path", first.Pos(), "nil only under "+cond, "a path ending here is accepted under ["+cond+"], the property allows only ["+wantEmpty+"]")
-		}
-		// 2. remaining tokens: final statement delegates
-		last := fd.Body.List[len(fd.Body.List)-1]
-		ret, isRet := last.(*ast.ReturnStmt)
+		rows := sym.retTable(f, 0)
+		nilCond := pcZ
 		deleg := false
-		if isRet && len(ret.Results) == 1 {
-			if ce, ok := ret.Results[0].(*ast.CallExpr); ok && len(ce.Args) == 3 {
-				if f := calleeOf(p, ce); f == validateI || (f != nil && f.Name() == "Validate") {
-					switch k {
-					case "leaf", "leafList", "opdArgument", "opdOption":
-						deleg = true // Type().Validate(ctx, path, value)
-					default:
-						// third argument is p[1:]
-						if se, ok := ce.Args[2].(*ast.SliceExpr); ok && objOfIdent(p, se.X) == pParam {
-							if v, ok := ConstInt(p, se.Low); ok && v == 1 {
-								deleg = true
-							}
+		var delegCond *pcF
+		for _, row := range rows {
+			if isNilConst(row.val) {
+				nilCond = pcOrF(nilCond, row.cond)
+				continue
+			}
+			if call, ok := row.val.(*ssa.Call); ok && call.Call.IsInvoke() && call.Call.Method.Name() == "Validate" && len(call.Call.Args) == 3 {
+				switch k {
+				case "leaf", "leafList":
+					deleg, delegCond = true, row.cond // Type().Validate(ctx, path, value)
+				default:
+					// the rest of the tokens: x[1:] of the tokens still to go
+					if sl, ok := call.Call.Args[2].(*ssa.Slice); ok && sl.High == nil {
+						if one, ok := intConstOf(sl.Low); ok && one == 1 && (sl.X == ssa.Value(pP) || isRest(sl.X)) {
+							deleg = true
 						}
 					}
 				}
 			}
-		}
-		// no other `return nil` after the empty arm (list: `if len(p)==0 {return nil}` after consuming the key is the entry itself)
-		extraNil := 0
-		for _, s := range fd.Body.List[1:] {
-			for _, rr := range returnsIn(s) {
-				if isNilIdent(p, rr.Results[0]) {
-					extraNil++
-				}
-			}
-		}
-		allowedExtra := 0
-		if k == "list" {
-			allowedExtra = 1
-		}
-		r.Check(deleg && extraNil == allowedExtra, "R17.2", c+" remaining tokens", fd.Pos(), "rejects or delegates the rest to the child / the type", fmt.Sprintf("with tokens remaining the method can return nil without delegating (%d such exits) or its final return does not delegate: anything below this node would be accepted", extraNil))
-		if k == "leaf" || k == "leafList" {
-			// nothing after the value
-			after := false
-			ast.Inspect(fd.Body, func(x ast.Node) bool {
-				if is, ok := x.(*ast.IfStmt); ok {
-					if be, ok := ast.Unparen(is.Cond).(*ast.BinaryExpr); ok && be.Op == token.NEQ {
-						if v, ok := ConstInt(p, be.Y); ok && v == 0 {
-							for _, rr := range returnsIn(is.Body) {
-								if !isNilIdent(p, rr.Results[0]) {
-									after = true
+			// a helper of the package that is handed the tokens and delegates them
+			if call, ok := row.val.(*ssa.Call); ok && !call.Call.IsInvoke() {
+				if h := call.Call.StaticCallee(); h != nil && h.Pkg == f.Pkg && h.Blocks != nil && len(ssaLoops(h)) == 0 {
+					for i, a := range call.Call.Args {
+						if a != ssa.Value(pP) || i >= len(h.Params) {
+							continue
+						}
+						hp := h.Params[i]
+						hd, hnil := false, false
+						for _, hrow := range NewSym(w).retTable(h, 0) {
+							if isNilConst(hrow.val) {
+								hnil = true
+							}
+							if hc, ok := hrow.val.(*ssa.Call); ok && hc.Call.IsInvoke() && hc.Call.Method.Name() == "Validate" && len(hc.Call.Args) == 3 {
+								if sl, ok := hc.Call.Args[2].(*ssa.Slice); ok && sl.High == nil && sl.X == ssa.Value(hp) {
+									if one, ok := intConstOf(sl.Low); ok && one == 1 {
+										hd = true
+									}
 								}
 							}
 						}
+						if hd && !hnil {
+							deleg = true
+						}
 					}
 				}
-				return true
-			})
-			r.Check(after, "R17.2", c+" value is last", fd.Pos(), "tokens after the value ⇒ error", "tokens after a leaf value are accepted")
+			}
+		}
+		// 1. the empty remainder
+		want := map[string]func(env map[string]bool) bool{
+			"tree":      func(env map[string]bool) bool { return true },
+			"container": func(env map[string]bool) bool { return env["presence"] || env["inc"] },
+			"list":      func(env map[string]bool) bool { return env["inc"] },
+			"listEntry": func(env map[string]bool) bool { return env["inc"] },
+			"leafList":  func(env map[string]bool) bool { return env["inc"] },
+			"leaf":      func(env map[string]bool) bool { return env["etype"] || env["inc"] },
+			"choice":    func(env map[string]bool) bool { return false },
+			"ycase":     func(env map[string]bool) bool { return false },
+		}[k]
+		descr := map[string]string{"tree": "always", "container": "Presence | AllowIncompletePaths", "list": "AllowIncompletePaths", "listEntry": "AllowIncompletePaths", "leafList": "AllowIncompletePaths", "leaf": "Empty | AllowIncompletePaths", "choice": "never", "ycase": "never"}[k]
+		msg := pcCompareWhere(nilCond, classify, func(env map[string]bool) bool { return env["empty"] }, want)
+		r.Check(msg == "", "R17.2", c+" empty path", f.Pos(), "a path ending here is accepted: "+descr, "a path ending here is not accepted exactly under ["+descr+"]: "+msg)
+		// 2. tokens remaining: nil only where the property says so, and the rest is delegated
+		msg2 := pcImplies(nilCond, classify, func(env map[string]bool) bool {
+			return env["empty"] || (k == "list" && env["restempty"])
+		})
+		why := ""
+		if msg2 != "" {
+			why = "with tokens remaining the method can return nil without delegating (" + msg2 + ")"
+		} else if !deleg {
+			why = "no exit hands the remaining tokens to the child / the type"
+		}
+		r.Check(why == "", "R17.2", c+" remaining tokens", f.Pos(), "rejects or delegates the rest to the child / the type", why+": anything below this node would be accepted")
+		if k == "leaf" || k == "leafList" {
+			msg3 := "no delegation to the type"
+			if delegCond != nil {
+				msg3 = pcImplies(delegCond, classify, func(env map[string]bool) bool { return env["restempty"] && !env["empty"] })
+			}
+			r.Check(msg3 == "", "R17.2", c+" value is last", f.Pos(), "tokens after the value ⇒ error", "tokens after a leaf value are accepted: "+msg3)
 		}
 	}
 }
